@@ -278,7 +278,7 @@ POLY_XSD = f'''<?xml version="1.0" encoding="UTF-8"?>
 '''
 
 FAMILIES = {'shop': SHOP_XSD, 'tree': TREE_XSD, 'ctx': CTX_XSD}
-FAMILY_NS = {'shop': SHOP, 'tree': TREE, 'ctx': CTX, 'poly': POLY, 'fx': FX, 'un': UN}
+FAMILY_NS = {'shop': SHOP, 'tree': TREE, 'ctx': CTX, 'poly': POLY, 'fx': FX, 'un': UN, 'plain': ''}
 # families with special purposes (not part of the shared rotation): xsi:type-dependent identity constraints
 FX_XSD = f'''<?xml version="1.0" encoding="UTF-8"?>
 <xs:schema xmlns:xs="{XS}" targetNamespace="{FX}" xmlns:f="{FX}" elementFormDefault="qualified">
@@ -309,6 +309,9 @@ UN_XSD = f'''<?xml version="1.0" encoding="UTF-8"?>
   <xs:simpleType name="IntList"><xs:list itemType="xs:int"/></xs:simpleType>
   <xs:simpleType name="Short"><xs:restriction base="u:IntList"><xs:maxLength value="3"/></xs:restriction></xs:simpleType>
   <xs:simpleType name="UL"><xs:union memberTypes="u:Short xs:date"/></xs:simpleType>
+  <xs:simpleType name="V"><xs:union memberTypes="xs:int xs:string"/></xs:simpleType>
+  <xs:simpleType name="W"><xs:union memberTypes="xs:int xs:date"/></xs:simpleType>
+  <xs:simpleType name="Wp"><xs:restriction base="u:W"><xs:pattern value="[0-9]+|[0-9]{{4}}-[0-9]{{2}}-[0-9]{{2}}"/></xs:restriction></xs:simpleType>
   <xs:simpleType name="Tok"><xs:restriction base="xs:token"><xs:pattern value="[a-z]( [a-z])*"/></xs:restriction></xs:simpleType>
   <xs:element name="un">
     <xs:complexType>
@@ -321,6 +324,8 @@ UN_XSD = f'''<?xml version="1.0" encoding="UTF-8"?>
               <xs:element name="size" type="u:U" minOccurs="0"/>
               <xs:element name="ul" type="u:UL" minOccurs="0"/>
               <xs:element name="tok" type="u:Tok" minOccurs="0"/>
+              <xs:element name="w" type="u:Wp" minOccurs="0"/>
+              <xs:element name="v" type="u:V" minOccurs="0" maxOccurs="unbounded"/>
             </xs:sequence>
             <xs:attribute name="a" type="u:Code"/>
             <xs:attribute name="b" type="u:U"/>
@@ -332,7 +337,36 @@ UN_XSD = f'''<?xml version="1.0" encoding="UTF-8"?>
 </xs:schema>
 '''
 
-EXTRA_FAMILIES = {'poly': POLY_XSD, 'fx': FX_XSD, 'un': UN_XSD}
+# no target namespace, the schema document written with XSD as its default namespace, instances without any
+# namespace declaration: every map of prefixes involved is empty
+PLAIN_XSD = f'''<?xml version="1.0" encoding="UTF-8"?>
+<schema xmlns="{XS}">
+  <element name="plain">
+    <complexType>
+      <sequence>
+        <element name="item" maxOccurs="unbounded">
+          <complexType>
+            <sequence>
+              <element name="name" type="string"/>
+              <element name="qty" type="positiveInteger" minOccurs="0"/>
+              <element name="part" minOccurs="0" maxOccurs="unbounded">
+                <complexType>
+                  <sequence><element name="name" type="int"/></sequence>
+                  <attribute name="k" type="int"/>
+                </complexType>
+              </element>
+            </sequence>
+            <attribute name="id" type="int" use="required"/>
+          </complexType>
+        </element>
+        <element name="name" type="date" minOccurs="0"/>
+      </sequence>
+    </complexType>
+  </element>
+</schema>
+'''
+
+EXTRA_FAMILIES = {'poly': POLY_XSD, 'fx': FX_XSD, 'un': UN_XSD, 'plain': PLAIN_XSD}
 
 
 def family_xsd(family, version):
@@ -583,20 +617,47 @@ def gen_un(rng, fault=None):
             item.meta['bad_attr'] = {'a': 'K9'}
         if rng.random() < 0.6:
             item.attrs.append(('', 'b', rng.choice(('7', 'ZZ', '-12', 'Big_one'))))
-        item.children.append(N(UN, 'code', text=rng.choice(('abc', 'x1', 'q')), meta={'bad_text': 'AB'}))
+        item.children.append(N(UN, 'code', text=rng.choice(('abc', 'x1', 'q')), meta={'bad_text': rng.choice(('AB', 'x y'))}))   # fails the pattern / every member
         if rng.random() < 0.6:
-            item.children.append(N(UN, 'ref', text=rng.choice(('AB12', '123', 'XY0')), meta={'bad_text': 'ab12'}))
+            item.children.append(N(UN, 'ref', text=rng.choice(('AB12', '123', 'XY0')), meta={'bad_text': rng.choice(('ab12', 'AB 12'))}))
         if rng.random() < 0.7:
             item.children.append(N(UN, 'size', text=rng.choice(('5', 'XL', 'Big', '042')), meta={'bad_text': '4 2'}))
         if rng.random() < 0.5:
             item.children.append(N(UN, 'ul', text=rng.choice(('1 2 3', '7', '2020-01-01', '')), meta={'bad_text': '1 2 3 4'}))
         if rng.random() < 0.4:
             item.children.append(N(UN, 'tok', text=rng.choice(('a', 'a b', ' a  b ')), meta={'bad_text': 'A'}))
+        if rng.random() < 0.5:
+            # members without patterns of their own: a bad value fails to decode in every member type
+            item.children.append(N(UN, 'w', text=rng.choice(('17', '2020-02-02', ' 5 ')), meta={'bad_text': rng.choice(('maybe', '12x'))}))
+        # overlapping member types: the first member in declared order that accepts the text decides the value
+        for _ in range(rng.choice((0, 1, 2))):
+            item.children.append(N(UN, 'v', text=rng.choice(('007', '12', 'x', ' 5 ', 'none', '1e3'))))
         root.children.append(item)
     return root
 
 
-GENERATORS = {'un': gen_un, 'shop': gen_shop, 'tree': gen_tree, 'ctx': gen_ctx, 'poly': gen_poly, 'fx': gen_fx}
+def gen_plain(rng, fault=None):
+    """No namespaces anywhere; the local name `name` is declared three times with different types."""
+    root = N('', 'plain', meta={'elem_only': True, 'required_children': ['item']})
+    for i in range(rng.randint(1, 4)):
+        item = N('', 'item', [('', 'id', str(i + 1))], meta={'elem_only': True, 'required_children': ['name'],
+                                                           'required_attrs': ['id'], 'bad_attr': {'id': 'x'}})
+        item.children.append(N('', 'name', text=rng.choice(('bolt', 'nut 7', '12')), meta={}))
+        if rng.random() < 0.5:
+            item.children.append(N('', 'qty', text=str(rng.randint(1, 50)), meta={'bad_text': '0'}))
+        for _ in range(rng.randint(0, 3)):
+            part = N('', 'part', meta={'elem_only': True, 'required_children': ['name'], 'bad_attr': {'k': 'k1'}})
+            if rng.random() < 0.5:
+                part.attrs.append(('', 'k', str(rng.randint(0, 9))))
+            part.children.append(N('', 'name', text=str(rng.randint(-5, 500)), meta={'bad_text': 'bolt'}))
+            item.children.append(part)
+        root.children.append(item)
+    if rng.random() < 0.5:
+        root.children.append(N('', 'name', text='2020-01-31', meta={'bad_text': '12'}))
+    return root
+
+
+GENERATORS = {'plain': gen_plain, 'un': gen_un, 'shop': gen_shop, 'tree': gen_tree, 'ctx': gen_ctx, 'poly': gen_poly, 'fx': gen_fx}
 
 
 # ---------------------------------------------------------------------------------------------
@@ -722,6 +783,8 @@ SPECIAL_IDENTITY_FAULTS = ('dup_vat',)
 
 
 def default_prefixes(family, rng=None):
+    if family == 'plain':
+        return {}
     ns = FAMILY_NS[family]
     base = {'shop': 's', 'tree': 't', 'ctx': 'c', 'poly': 'p', 'fx': 'f', 'un': 'u'}[family]
     if rng is None:
